@@ -467,13 +467,13 @@ def main(engine, argv=None):
     # kernel as in user code (copy-on-write faults), a 5x slowdown.
     method = os.environ.get('VSIM_MP', 'spawn')
     context = multiprocessing.get_context(method)
-    item_timeout = conf.get('chunk_timeout', 600)
+    item_timeout = conf.get('chunk_timeout', 3000)
 
     import tempfile
 
     status_dir = tempfile.mkdtemp(prefix='vsim-status-')
     stuck_items = []
-    stuck_after = conf.get('stuck_after_s', 150)
+    stuck_after = conf.get('stuck_after_s', 900)
 
     with concurrent.futures.ProcessPoolExecutor(
             max_workers=workers, mp_context=context,
@@ -593,11 +593,12 @@ def main(engine, argv=None):
                                       conf.get('hang_confirm_s', 120))
 
         if violation is None:
-            print('HARNESS: item {} kept a worker busy for more than {} s '
-                  'but finished when run alone'.format(
+            # Slow, not hung (a loaded machine): the run was cut short, which
+            # the evidence shows as planned vs. done runs; no verdict on it.
+            print('NOTE: item {} kept a worker busy for more than {} s but '
+                  'finished when run alone; the run was cut short'.format(
                       json.dumps(item)[:200], stuck_after), flush=True)
-
-            return 2
+            continue
 
         wall_hangs.append(violation)
 
